@@ -9,7 +9,8 @@ finding `panic-pass-gauge` and the answer is `?known:panic-pass-gauge:<demanded 
 
 Op lines (times are milliseconds relative to the case start; both sides add the same base):
   clock <ms> | rule iso <res> <T> | rule hot <res>
-  entry <id> <res> in|out <batch> <chain> <nargs> <arg>*      chain = default | c/<pre>/<rules>/<stats>
+  entry <id> <res> in|out [type=<t>] <batch> <chain> <nargs> <arg>*      chain = default | c/<pre>/<rules>/<stats>
+  racexit <id> [<err>]
   trace <id> <err|nil> | exit <id> [<err>]
   read <res|__inbound__> sum|sum10 <ev> | read <res|__inbound__> conc|maxconc|minrt
   ctx <id> err|args | reclog | soak <G> <N> <R> <seed>
@@ -69,7 +70,8 @@ def parseChain? (s : String) : Option Chain :=
     let rules := (if r = "-" then [] else r.toList).mapM fun c =>
       if c = 'n' then some Rule.nil else if c = 'p' then some Rule.pass else if c = 'b' then some Rule.block
       else if c = 'x' then some Rule.panic else none
-    let sl := if st = "-" then [] else st.toList
+    -- `w` = the harness's rendezvous slot (a user stat slot that does nothing to the account): not part of the table
+    let sl := (if st = "-" then [] else st.toList).filter (· ≠ 'w')
     let std := sl.head? = some 'S'
     let recs := (if std then sl.drop 1 else sl).mapM fun c => if c.isDigit then some (c.toNat - 48) else none
     match pre, rules, recs with
@@ -159,7 +161,18 @@ def soakOps (d : D) (spec : Bool) (G N R seed idBase : Nat) : D := Id.run do
 def known (d : D) (spec : Bool) (id : Nat) : Bool :=
   if spec then (d.infos.lookup id).isSome else (EntryPool.findP d.pst.ents id).isSome
 
-def step (spec : Bool) (d : D) (ts : List String) (_ : String) : D × Option String :=
+def resTypes : List String := ["common", "web", "rpc", "api_gateway", "db_sql", "cache", "mq"]
+
+/-- the optional `type=<t>` token of an entry op (after `in|out`) -/
+def splitType (ts : List String) : List String × String :=
+  match ts with
+  | "entry" :: id :: res :: dir :: t :: rest =>
+    if t.startsWith "type=" then ("entry" :: id :: res :: dir :: rest, (t.drop 5).toString) else (ts, "common")
+  | _ => (ts, "common")
+
+def step (spec : Bool) (d : D) (ts0 : List String) (_ : String) : D × Option String :=
+  let (ts, rty) := splitType ts0
+  if !resTypes.contains rty then (d, some "bad-op") else
   match ts with
   | ["clock", t] => match t.toNat? with
       | some t => ({ d with now := base + t, mono := d.mono && decide (d.now ≤ base + t) }, none)
@@ -176,7 +189,7 @@ def step (spec : Bool) (d : D) (ts : List String) (_ : String) : D × Option Str
         match ch with
         | none => (d, some "bad-op")
         | some ch =>
-          let e : EntryOp := { id := id, res := res, inbound := dir = "in", batch := batch, args := args, chain := ch }
+          let e : EntryOp := { id := id, res := res, inbound := dir = "in", batch := batch, args := args, chain := ch, rtype := rty }
           let d' := apply d spec (.entry e)
           let r := if spec then (d'.infos.lookup id).map (fun i => decide (outcome i.e.chain ≠ .block)) else EntryPool.obsEntered d'.pst id
           (d', some (match r with | some true => "pass" | some false => "block" | none => "bad-op"))
@@ -189,6 +202,14 @@ def step (spec : Bool) (d : D) (ts : List String) (_ : String) : D × Option Str
       | none => (d, some "bad-op")
   | ["exit", id, err] => match id.toNat? with
       | some id => if known d spec id then (apply d spec (.exit id (if err = "nil" then none else some err)), none) else (d, some "bad-op")
+      | none => (d, some "bad-op")
+  | "racexit" :: id :: errs => match id.toNat? with
+      -- two goroutines call Exit (same options) on the same entry at the same time: whatever the overlap, that is two
+      -- `exit` ops in the history
+      | some id =>
+        if !known d spec id || errs.length > 1 then (d, some "bad-op") else
+        let err := match errs with | [e] => if e = "nil" then none else some e | _ => none
+        (apply (apply d spec (.exit id err)) spec (.exit id err), none)
       | none => (d, some "bad-op")
   | ["read", key, what, ev] => match Ev.ofString? ev with
       | none => (d, some "bad-op")
